@@ -585,9 +585,66 @@ def check_translation(pid):
     return res
 
 
+CHK_THEOREMS = ["gen_is_one_eq", "gen_is_zero_eq", "gen_check_is_one_eq", "gen_check_unit_interval_eq",
+                "gen_in_unit_interval_eq", "gen_check_unit_interval_is_in_unit"]
+
+
+def check_translation_checks(pid):
+    """src/approx_ext.rs + src/errors.rs -> ChkGen.v (tools/rs2v.py --checks), proved to be the model's tolerance
+    predicates (coq/Gen/ChkGenEq.v).  For C01 and C19."""
+    import hashlib
+    if pid not in ("C01", "C19"):
+        return {"theorems": [], "errors": []}
+    d = os.path.join(SCRATCH, "gen")
+    os.makedirs(d, exist_ok=True)
+    res = {"theorems": [], "errors": []}
+    with Lock("gen" if not ISO else "gen-" + os.path.basename(ISO.rstrip("/"))):
+        p = subprocess.run([sys.executable, os.path.join(VERIF, "tools", "rs2v.py"), "--checks",
+                            os.path.join(REPO, "src", "approx_ext.rs"), os.path.join(REPO, "src", "errors.rs")],
+                           stdout=subprocess.PIPE, stderr=subprocess.PIPE)
+        if p.returncode != 0:
+            res["errors"].append("translation of src/approx_ext.rs / src/errors.rs failed (%s): the model's tolerance predicates "
+                                 "are not tied to the source" % p.stderr.decode("utf-8", "replace").strip()[:400])
+            return res
+        new = p.stdout.decode()
+        eq_src = open(os.path.join(COQ, "Gen", "ChkGenEq.v")).read()
+        stamp = os.path.join(d, "chk_ok.json")
+        key = hashlib.sha256((new + "\0" + eq_src).encode()).hexdigest()
+        cached = None
+        if os.path.exists(stamp):
+            try:
+                cached = json.load(open(stamp))
+            except ValueError:
+                cached = None
+        rb = os.path.join(COQ, "Facts", "RBase.vo")
+        if not cached or cached.get("key") != key or not os.path.exists(rb) or os.path.getmtime(rb) > os.path.getmtime(stamp):
+            open(os.path.join(d, "ChkGen.v"), "w").write(new)
+            rc, out = build_coq(["Facts/RBase.vo"])
+            if rc == 0:
+                rc, out = sh(["coqc", "-Q", COQ, "SL", "-Q", d, "SLGen", os.path.join(d, "ChkGen.v")], cwd=d, timeout=600)
+            if rc != 0:
+                cached = {"key": key, "proved": [], "failed": {"*": "generated definitions do not type-check: " + out[-500:]}}
+            else:
+                proved, failed, ax = _prove_blocks(d, "ChkGenEq.v", eq_src, "(* END *)")
+                if not ax <= ALLOWED_AXIOMS:
+                    failed["*"] = "unexpected axioms " + ", ".join(sorted(ax - ALLOWED_AXIOMS))
+                cached = {"key": key, "proved": proved, "failed": failed}
+            json.dump(cached, open(stamp, "w"))
+    for t in CHK_THEOREMS:
+        if t in cached["proved"] and "*" not in cached["failed"]:
+            res["theorems"].append(t)
+        else:
+            res["errors"].append("the model's tolerance predicates no longer equal the translation of src/approx_ext.rs / "
+                                 "src/errors.rs: theorem %s (coq/Gen/ChkGenEq.v): %s" % (
+                                     t, cached["failed"].get(t) or cached["failed"].get("*") or "an earlier statement failed"))
+    return res
+
+
 def check_proofs(pid):
     res = _check_proofs(pid)
     tr = check_translation(pid)
+    tc = check_translation_checks(pid)
+    tr = {"theorems": tr["theorems"] + tc["theorems"], "errors": tr["errors"] + tc["errors"]}
     if tr["theorems"] or tr["errors"]:
         res["theorems"] = res.get("theorems", []) + tr["theorems"]
         res["obligations"] = res.get("obligations", 0) + len(tr["theorems"]) + len(tr["errors"])
